@@ -347,15 +347,17 @@ RejectLeavesState == [][last'.res \in {"reject", "empty", "ignored"} => a' = a]_
 NeverForgets == [][a.hdrs \subseteq a'.hdrs /\ b.hdrs \subseteq b'.hdrs]_vars
 
 \* --- progress ---
-Due == Work(b.hhead) > Work(SyncHead(a))
+DueOf(aa, bb) == Work(bb.hhead) > Work(SyncHead(aa))
+Due == DueOf(a, b)
 Quiescent == net.phase = "idle" /\ ~Due
 \* number of request/response rounds still needed: the common header moves up by MAX_BLOCK_HEADERS per round
-Phi == IF ~Minted \/ ~Due THEN 0
-       ELSE CeilDiv(Height(b.hhead) - Height(FindCommon(LocatorOf(SyncHead(a)), b)), MaxHeaders)
+PhiOf(aa, bb) == IF ~DueOf(aa, bb) THEN 0
+                 ELSE CeilDiv(Height(bb.hhead) - Height(FindCommon(LocatorOf(SyncHead(aa)), bb)), MaxHeaders)
+Phi == IF ~Minted THEN 0 ELSE PhiOf(a, b)
 \* an undisturbed round (request built, answered by the B that is still there, received) brings A exactly one
 \* round closer: either the sync head advances along B's chain or it jumps onto B's chain at the common point
 RoundProgress == [][(net.phase = "resp" /\ net'.phase = "idle" /\ net.fresh) =>
-                       /\ Phi' = Phi - 1
+                       /\ PhiOf(a', b) = PhiOf(a, b) - 1
                        /\ a'.insync /\ IsAnc(a'.sync, b.hhead)
                        /\ Height(a'.sync) = Min(Height(FindCommon(net.loc, b)) + MaxHeaders, Height(b.hhead))]_vars
 \* hence: after the last disturbance at most ceil(height of B's head / MAX_BLOCK_HEADERS) rounds
